@@ -25,8 +25,18 @@ package taskfile
 // ---- C08: reading an include --------------------------------------------------------------------------
 // "optional" forgives only a Taskfile that cannot be located; an error from inside the included tree (missing
 // nested include, cycle, decode error, version mismatch) is always handed on.
+// Interface contract (assumed for every implementation: file, stdin, http, git, cache): resolving a path computes
+// a string from the node's own location and the argument; it changes nothing.
+//@ func (Node).ResolveDir
+//@   trusted
+//@   pure
+//@ func (Node).ResolveEntrypoint
+//@   trusted
+//@   pure
 //@ ghost var recFailed bool scratch
 //@ ghost var locFailed bool scratch
+//@ ghost var dirResolved bool scratch
+//@ ghost var resolvedDir string scratch
 //@ func (*Reader).include$1$1
 // the vars of an include statement are resolved - templates and refs alike - while the include is read, against the
 // variables of the INCLUDING Taskfile: a value taken from the parent never turns into the like-named variable of the
@@ -38,6 +48,13 @@ package taskfile
 //@   site (*Reader).include#1 ghost recFailed := result != nil
 //@   ensures recFailed ==> result != nil      -- optional excuses a MISSING file only: whatever goes wrong inside an included file (not trusted, cycle, bad version) is reported   [C08,C20,C16,C09]
 //@   ensures locFailed && !include.Optional ==> result != nil                                                          [C08]
+// the directory of EVERY include - also of one that names no dir - is resolved against the including Taskfile before
+// the included file is read and merged: its tasks run in "the directory given by the include", which for an include
+// without dir is the directory of the file that includes it, not whatever an enclosing include or -d says
+//@   init dirResolved := false
+//@   site (Node).ResolveDir#1 ghost dirResolved := true
+//@   site (Node).ResolveDir#1 ghost resolvedDir := result.0
+//@   site NewNode#0 requires dirResolved && arg1 == resolvedDir                                                         [C08]
 
 // ---- C20: remote Taskfiles ---------------------------------------------------------------------------------
 // dl: the bytes just downloaded; dlFailed: the download failed; promptOKd: the trust prompt was answered yes;
